@@ -317,7 +317,7 @@ func main() {
 		Assumptions: []string{"math/big", "refir evaluator", "operands have the gadget's width (documented domain)"},
 		Cases: func(t string) int {
 			if t == "thorough" {
-				return len(gadgets) * 6000
+				return len(gadgets) * 30000
 			}
 			return len(gadgets) * 1200
 		},
